@@ -178,6 +178,10 @@ impl Store {
             }
         }
 
+        // Remove any previous backup, so that the renames below cannot fail half-way
+        let _ = fs::remove_file(&events_bak_path);
+        let _ = fs::remove_dir_all(&indexes_bak_path);
+
         // Backup existing data (moving out of the way)
         fs::rename(&events_path, &events_bak_path)?;
         fs::rename(&indexes_path, &indexes_bak_path)?;
@@ -254,6 +258,18 @@ impl Store {
         new_txn.commit()?;
 
         new_store.sync()?;
+
+        // Close the old environment. An environment stays open (and is handed out again
+        // for the same path) until it is explicitly closed, so a later rebuild would
+        // otherwise read this stale backup instead of the data it has just moved there.
+        drop(old_txn);
+        let Store {
+            events: old_events,
+            indexes: old_indexes,
+            ..
+        } = old_store;
+        old_indexes.close()?;
+        drop(old_events);
 
         if need_chown {
             std::os::unix::fs::chown(&events_path, Some(file_uid), None)?;
